@@ -1,1 +1,92 @@
-(* placeholder: to be written *)
+(** Trace checker for the price-discovery correspondence run: replays the operations the harness
+    executed on the real contract and compares every observation.  Returns [] or
+    [index; field; model value; implementation value] for the first difference
+    (index -1 = the deployment itself). *)
+From MX Require Import Base.Prelude Gen.Params Model.PriceDiscovery.
+
+Record pobs := mkObs {
+  o_ok : bool;
+  o_outs : list Z;              (* amount of the returned payment *)
+  o_phase : Z; o_pct : Z;       (* getCurrentPhase: discriminant, penalty percentage (0 when the variant has none) *)
+  o_price : Z;                  (* getCurrentPrice, -1 when the view fails *)
+  o_s1 : Z; o_s2 : Z;           (* getRedeemTokenTotalCirculatingSupply(1), (2) *)
+  o_lb : Z; o_ab : Z;           (* getLaunchedTokenBalance, getAcceptedTokenBalance *)
+  o_rl : Z; o_ra : Z;           (* ESDT balances of the contract account *)
+  o_h1 : list (Z * Z);          (* redeem-token balances of the tracked accounts, nonce 1 *)
+  o_h2 : list (Z * Z)           (* ... nonce 2 *)
+}.
+
+Fixpoint list_eqb (a b : list Z) : bool :=
+  match a, b with
+  | [], [] => true
+  | x :: a', y :: b' => (x =? y) && list_eqb a' b'
+  | _, _ => false
+  end.
+
+Fixpoint first_hold_diff (s : pd) (l : bool) (obs : list (Z * Z)) : option (Z * Z * Z) :=
+  match obs with
+  | [] => None
+  | (a, v) :: t => if held s l a =? v then first_hold_diff s l t else Some (a, held s l a, v)
+  end.
+
+Definition m_phase (s : pd) : Z * Z :=
+  match view_phase s with
+  | Ok ph => (phase_ix ph, penalty_of ph)
+  | Err _ => (-1, -1)
+  end.
+
+Definition m_price (s : pd) : Z :=
+  match view_price s with Ok p => p | Err _ => -1 end.
+
+Definition cmp_state (i : Z) (s : pd) (o : pobs) : list Z :=
+  if negb (fst (m_phase s) =? o_phase o) then [i; 10; fst (m_phase s); o_phase o]
+  else if negb (snd (m_phase s) =? o_pct o) then [i; 11; snd (m_phase s); o_pct o]
+  else if negb (m_price s =? o_price o) then [i; 12; m_price s; o_price o]
+  else if negb (view_supply s NL =? o_s1 o) then [i; 13; view_supply s NL; o_s1 o]
+  else if negb (view_supply s NA =? o_s2 o) then [i; 14; view_supply s NA; o_s2 o]
+  else if negb (p_lb s =? o_lb o) then [i; 15; p_lb s; o_lb o]
+  else if negb (p_ab s =? o_ab o) then [i; 16; p_ab s; o_ab o]
+  else if negb (p_rl s =? o_rl o) then [i; 17; p_rl s; o_rl o]
+  else if negb (p_ra s =? o_ra o) then [i; 18; p_ra s; o_ra o]
+  else match first_hold_diff s true (o_h1 o) with
+       | Some (a, m, v) => [i; 100 + a; m; v]
+       | None =>
+         match first_hold_diff s false (o_h2 o) with
+         | Some (a, m, v) => [i; 200 + a; m; v]
+         | None => []
+         end
+       end.
+
+Fixpoint check_trace (s : pd) (i : Z) (tr : list (pdop * pobs)) : list Z :=
+  match tr with
+  | [] => []
+  | (op, o) :: t =>
+      match step s op with
+      | Ok (s', outs) =>
+          if negb (o_ok o) then [i; 1; 1; 0]
+          else if negb (list_eqb outs (o_outs o)) then [i; 2; hd (-1) outs; hd (-1) (o_outs o)]
+          else match cmp_state i s' o with
+               | [] => check_trace s' (i + 1) t
+               | d => d
+               end
+      | Err _ =>
+          if o_ok o then [i; 1; 0; 1]
+          else match cmp_state i s o with
+               | [] => check_trace s (i + 1) t
+               | d => d
+               end
+      end
+  end.
+
+(** [deployed] = the real [init] succeeded; [o0] = the observation right after deployment. *)
+Definition check_history (r : result pd) (deployed : bool) (o0 : pobs) (tr : list (pdop * pobs)) : list Z :=
+  match r with
+  | Ok s =>
+      if deployed then
+        match cmp_state (-1) s o0 with
+        | [] => check_trace s 0 tr
+        | d => d
+        end
+      else [-1; 1; 1; 0]
+  | Err _ => if deployed then [-1; 1; 0; 1] else []
+  end.
